@@ -90,7 +90,7 @@ func TestC09Regress(t *testing.T) {
 	t.Run("two-spenders", func(t *testing.T) {
 		rapid.Check(t, func(t *rapid.T) {
 			regressC09(t, func(w *World, c []wire.OutPoint) {
-				a := spendTo(c[:2], wire.NewTxOut(999990000, sim.StdScript(w.strangers[0]))) // spends c0 and c1
+				a := spendTo(c[:2], wire.NewTxOut(999990000, sim.StdScript(w.strangers[0])))  // spends c0 and c1
 				b := spendTo(c[1:2], wire.NewTxOut(499990000, sim.StdScript(w.strangers[1]))) // spends c1
 				w.deliverPending(t, a)
 				w.deliverPending(t, b)
